@@ -44,6 +44,8 @@ ClaimOK(ln) == LET need == AddSmall(ln.n, 9) IN
 SerDefOK(ln) == LET need == AddSmall(ln.n, 1 + ShortestArgw(ln.n)) IN
   /\ (Strip(ln.ret) # <<>> => Eq(ln.ret, need) /\ Geq(ln.buf, need))
   /\ (Strip(ln.size) = <<>> \/ Eq(ln.size, need)) /\ (Fits(need, 8) => Eq(ln.size, need))
+  /\ (ln.acalled => Geq(ln.areq, need))                    \* serialize_alloc requests at least the size, or nothing
+  /\ (Strip(ln.aret) # <<>> => ln.acalled /\ Eq(ln.aret, need))
 
 LineOK(ln) == CASE ln.e = "mu" -> MuOK(ln) [] ln.e = "e2e" -> E2eOK(ln) [] ln.e = "grow" -> GrowOK(ln)
                 [] ln.e = "claim" -> ClaimOK(ln) [] ln.e = "serdef" -> SerDefOK(ln) [] OTHER -> SerSizeOK(ln)
